@@ -15,11 +15,11 @@ use std::collections::{BTreeMap, BTreeSet};
 use std::hash::Hasher;
 use std::panic::{catch_unwind, AssertUnwindSafe};
 
-pub const MIN_PERSISTENT_TTL: u32 = 2_000_000;
+pub const MIN_PERSISTENT_TTL: u32 = 4_000_000;
 pub const MAX_ENTRY_TTL: u32 = 6_312_000;
 /// runs keep the total ledger-sequence advance below this, so persistent and
 /// instance entries never reach archival (see DESIGN §1.2)
-pub const MAX_SEQ_ADVANCE: u32 = 500_000;
+pub const MAX_SEQ_ADVANCE: u32 = 2_600_000;
 
 #[derive(Clone, Debug)]
 pub enum Outcome {
